@@ -297,6 +297,20 @@ def handle (j : Json) : R Json := do
   let k ← jstr j "k"
   match k with
   | "ping" => pure (Json.mkObj [("pong", jn 1)])
+  | "bind" =>
+      -- {"target": "Q.linear", "nargs": 3, "kw": ["bias"]}: positional i is the literal "a<i>", keyword k the literal "k:<k>"
+      let t ← jstr j "target"
+      let nargs ← jnat j "nargs"
+      let kws ← (← jarr j "kw").toList.mapM fun v => match v.getStr? with | .ok s => pure s | .error e => .error e
+      match callSigOf t with
+      | none => .error s!"no signature for {t}"
+      | some sg =>
+        let args := (List.range nargs).map fun i => Arg.lit s!"a{i}"
+        let kwargs := kws.map fun k => (k, Arg.lit s!"k:{k}")
+        match bindCall sg args kwargs with
+        | none => pure (Json.mkObj [("ok", Json.bool false)])
+        | some b => pure (Json.mkObj [("ok", Json.bool true),
+            ("bound", Json.arr (b.map fun p => Json.arr #[Json.str p.1, Json.str p.2.show]).toArray)])
   | "constraint" =>
       let name ← jostr j "name"
       let scales ← jflts j "scales"
